@@ -141,7 +141,7 @@ def c09_class(case, obs):
 def c04_class(case, obs):
     sched = case.get("sched", "-"); steps = [] if sched == "-" else sched.split(";")
     kinds = set(s.split(":")[0] for s in steps)
-    feats = [nm for k, nm in (("u","unknown-id"),("n","notify-inflight-id"),("N","notify-free-id"),("T","timeout"),("C","cancel")) if k in kinds]
+    feats = [nm for k, nm in (("u","unknown-id"),("n","notify-inflight-id"),("N","notify-free-id"),("T","timeout"),("C","cancel"),("F","forward"),("Fn","forward-notify")) if k in kinds]
     reps = [s for s in steps if s.startswith("r:")]
     if any(not s.endswith(":0") for s in reps): feats.append("duplicate")
     try:
@@ -192,6 +192,30 @@ def c16_class(case, obs):
     return {"cap": case.get("cap", "?"), "mw": case.get("mw", "?"), "events": _len_class(n),
             "refused_at_cap": str("s" in toks), "notify_dropped": str("d" in toks),
             "panic": str(":p" in ev), "error_exit": str(":e" in ev), "inline": str(":i" in ev)}
+
+def c08_class(case, obs):
+    k = case.get("k", "?"); t = case.get("t", "?")
+    w = {"u8":1,"i8":1,"u16":2,"i16":2,"bf16":2,"f16":2,"u32":4,"i32":4,"f32":4}.get(t, 8)
+    xs = case.get("xs", case.get("zs", "-")); n = 0 if xs == "-" else len(xs) // (2 * w)
+    d = {"kind": k, "type": t, "len": _len_class(n), "size_width": "1" if n < 64 else ("2" if n < 16384 else "4")}
+    try:
+        if k == "ref": d.update({"src": case.get("src"), "ql_mod8": int(case.get("ql", "0"), 16) % 8, "m": case.get("m"), "borrowed": obs.get("bor", "?")})
+    except ValueError:
+        pass
+    if k == "net": d.update({"route": case.get("rk"), "client": case.get("ck")})
+    if k == "wt": d["u"] = case.get("u")
+    if k == "wf": d["bf"] = case.get("bf")
+    return d
+
+def c06_class(case, obs):
+    sc = case.get("script", "-"); evs = [] if sc == "-" else sc.split(";"); ops = [e.split(":")[0] for e in evs]
+    fault = next((e.split(":")[1] for e in evs if e.split(":")[0] in ("F","P") and ":" in e), "none")
+    fi = next((i for i,o in enumerate(ops) if o in ("F","P")), len(ops))
+    infl = sum(1 for o in ops[:fi] if o in ("S","T","U","W"))
+    return {"kind": case.get("kind","?"), "fault": fault, "window": str("P" in ops), "stalled": str("W" in ops),
+            "races": ",".join(sorted({o for o in ops if o in ("XA","XB","XC","CB","CC")})) or "-",
+            "timeout": str(any(o.startswith("X") for o in ops)), "cancel": str(any(o in ("C","CB","CC") for o in ops)),
+            "inflight": "0" if infl==0 else "1" if infl==1 else "2-3" if infl<=3 else "4-16", "sub": case.get("sub","0")}
 
 PROPS = {
     "C01": {
@@ -296,7 +320,7 @@ PROPS = {
     "C15": {
         "harness": "c15", "driver": "c15", "shards": 4, "harness_shards": 4,
         "classify": c15_class, "nontrivial": lambda cls: cls["handshake"] == "ok",
-        "rule": "cases = {serve_listener, serve_listener_with_graceful_drain, SharedWebSocketServer::accept(+_with_handshake)+serve_connection(+_with_cancel/_with_handshake), hand-rolled 101 + adopt_upgraded} x exit cause {clean close, socket loss, text frame, oversized frame, non-REPE binary frame, inline handler panic, embedder/shutdown token cancel, drain-deadline / task abort} x phase {idle, inline handler blocked, off-reader handler parked polling is_cancelled, outbound queue blocked on a slow peer, inside a blocking connect hook} with random hook configurations (counting / notifying / sleeping / alias-attaching hooks before and after with_peer_registry, handshake-aware hooks, 1..4 disconnect hooks around the registry's), plus a panicking connect hook at each position class and failed handshakes (garbage, wrong path, HTTP without upgrade); 1..4 (quick) / 1..32 (thorough) concurrent connections; per connection: callbacks ordered by a global sequence counter with registry.get/get_by sampled inside, registry after, frames seen by a raw tungstenite peer up to the first response, cancellation seen by the parked handler; distinct = distinct case; non-trivial = handshake succeeded",
+        "rule": "cases = {serve_listener, serve_listener_with_graceful_drain, SharedWebSocketServer::accept(+_with_handshake)+serve_connection(+_with_cancel/_with_handshake), hand-rolled 101 + adopt_upgraded} x exit cause {clean close, socket loss, text frame, oversized frame, non-REPE binary frame, inline handler panic, embedder/shutdown token cancel, drain-deadline / task abort} x phase {idle, inline handler blocked, off-reader handler parked polling is_cancelled, outbound queue blocked on a slow peer, inside a blocking connect hook} with random hook configurations (counting / notifying / sleeping / alias-attaching hooks before and after with_peer_registry, handshake-aware hooks, 1..4 disconnect hooks around the registry's), plus a panicking connect hook at each position class and failed handshakes (garbage, wrong path, HTTP without upgrade); 1..4 (quick) / 1..32 (thorough) concurrent connections; per connection: callbacks ordered by a global sequence counter with registry.get/get_by sampled inside, registry after, frames seen by a raw tungstenite peer up to the first response, cancellation seen by the parked handler; plus staggered cases for every serving path: 2..4 connections under one server / shutdown trigger, connection 0 ended alone (clean close / socket loss / inline handler panic / protocol violation) while the others are idle or have a parked off-reader handler; after its disconnect hooks and a 300 ms settle each survivor must show 0 disconnect callbacks, presence in the registry with all its aliases, no cancellation seen, an answered fresh request, an un-cancelled embedder ShutdownToken, and a newly opened connection must be served; then the survivors are ended and judged by the usual clauses; distinct = distinct case; non-trivial = handshake succeeded",
         "timeout_s": {"quick": 900, "thorough": 3400},
     },
     "C16": {
@@ -304,6 +328,19 @@ PROPS = {
         "classify": c16_class,
         "nontrivial": lambda cls: cls["refused_at_cap"] == "True" or cls["notify_dropped"] == "True" or cls["panic"] == "True",
         "rule": "cases = scripted histories on one live WebSocket connection with with_offreader_limit(cap), cap 1..3 and unlimited (quick) / 1..16 and unlimited (thorough), 0..2 middlewares: for cap <= 3 every release order x every exit kind {return, error, panic}^cap x every notify pattern (sampled 1/17 in quick), each with 4 x cap parked requests over the json/typed/ctx blocking routes, inline requests and notifies interleaved during saturation, optional refill after each exit, a fresh batch of cap (+1 refused) after all exits and a final inline call; random release orders for larger caps; random walks of 5..120 events; handlers park on per-request channels and keep an atomic gauge; a raw tungstenite peer with hand-built frames waits for the effect of every event; distinct = distinct script; non-trivial = a request was refused or dropped at the cap, or a handler panicked",
+        "timeout_s": {"quick": 900, "thorough": 3400},
+    },
+    "C08": {
+        "harness": "c08", "driver": "c08", "shards": 16,
+        "classify": c08_class,
+        "nontrivial": lambda cls: cls["len"] != "<=0" or cls["kind"] in ("enc", "cplx", "ref", "net"),
+        "rule": "cases = 12 element types (u8..u64, i8..i64, bf16, f16, f32, f64; elements = boundary bit patterns incl. quiet/signalling NaNs with payloads, infinities, subnormals, integer extremes, and random bits) x lengths 0..33, 62..66, 255,256,257,4095,4096,16383,16384 (+ random <=5000, 10^5 thorough) through body_typed_slice / body_beve / write_message_typed_slice / write_message and the four decoder x encoder pairs; complex pairs for f32,f64,i16; borrowing route via handle_view with the frame placed at misalignment 0..7 in an 8-aligned buffer x query length 0..16 x lengths over all SIZE widths x aligned/regular/serde bodies, slice pointer range observed; every ordered pair of distinct element types x bulk/generic/aligned bodies x bulk decoder and both bulk routes; 6 wrong body-format codes; live blocking and async TCP servers: 8 route x client pairings x several path lengths; distinct = distinct case line; non-trivial = non-empty slice, or the empty slice on an encode/cross-decode/route path",
+        "timeout_s": {"quick": 900, "thorough": 3400},
+    },
+    "C06": {
+        "harness": "c06", "driver": "c06", "shards": 2, "harness_shards": 16, "classify": c06_class,
+        "nontrivial": lambda cls: cls["fault"] != "none" or cls["timeout"] == "True" or cls["cancel"] == "True",
+        "rule": "for each client (blocking, async, WebSocket): faults injected by a raw scripted peer after k of n requests were read — clean close, RST (SO_LINGER 0), bad magic, length mismatch, query_length=2^64-21/body_length=100, body_length=2^62, header truncated at 20 and 47 bytes, body truncated at 5 offsets, truncated then RST; on WebSocket also close frame, text frame, reserved bits, masked server frame, unknown opcode — with n = 0..3 (quick) / 0..16 (thorough) calls in flight, with and without per-call timeouts, then two later calls; the same with the reader parked at fail.after_shutdown (subscriber state, a later call, a cancel, then the drain); all lives of 2 / 3 calls over {answered, expired, expiry forced before removal / after take / before lookup via probes, cancelled, cancel forced after take / before lookup, pending}, sequential and overlapped, with late responses, an unknown-id response and forward_message residue probes, then a fresh call that must still work; the stalled-writer scenario (8 MiB request to a peer with 4 KiB SO_RCVBUF that does not read) on all three clients; 150 / 1500 random valid scenarios; 5 s watchdog per wait; distinct = distinct case line; non-trivial = a fault, timeout or cancel occurred",
         "timeout_s": {"quick": 900, "thorough": 3400},
     },
 }
